@@ -38,10 +38,10 @@ def _walk(code, out):
 def _collect():
     """every code object of the loaded exabgp modules (functions, methods, nested functions, lambdas, comprehensions)"""
     global _scanned_modules
-    mods = [m for n, m in list(sys.modules.items()) if n.startswith('exabgp') and m is not None]
-    if len(mods) == _scanned_modules:
+    if len(sys.modules) == _scanned_modules:
         return []
-    _scanned_modules = len(mods)
+    _scanned_modules = len(sys.modules)
+    mods = [m for n, m in list(sys.modules.items()) if n.startswith('exabgp') and m is not None]
     found = set()
 
     def from_obj(o, depth=0):
